@@ -160,7 +160,9 @@ def watch_history(ctx, rng, kind, owning, cfg, nops, given=None):
                     ret = len(owner.coll); exp = len(L); mop = {'k': 'loadAll'}
                     if flushed_since(wasmod): pre.append({'k': 'flush'}); ctx.count('setdata:implicit-flush:len')
                 elif k == 'count':
+                    wasmod = cache is not None and cache.modified
                     ret = owner.coll.count(); exp = len(L); mop = {'k': 'count'}
+                    if flushed_since(wasmod): pre.append({'k': 'flush'}); ctx.count('setdata:implicit-flush:count')
                 elif k == 'flush':
                     flush(); mop = {'k': 'flush'}
                 after = w.sd(owner, items)
@@ -351,7 +353,43 @@ def witness_unflushed_parameter(ctx):
         db.disconnect()
 
 
+def witness_count_blind_write(ctx):
+    """found by this check, open: count() queries the database with flushing disabled and corrects the answer by the added /
+    removed items the collection knows of; when the parent of an item whose row is not loaded (known through a foreign key only)
+    is reassigned, the old parent's collection is not told, and its count() is one too large until the next flush
+    (fixes/C10-count-without-flush-misses-unknown-pending-changes.diff)"""
+    db = Database()
+    class E(db.Entity):
+        id = PrimaryKey(int)
+        kids = Set('E', reverse='parent')
+        parent = Optional('E', reverse='kids')
+    db.bind('sqlite', ':memory:')
+    db.generate_mapping(create_tables=True)
+    try:
+        with db_session:
+            e2 = E(id=2); flush(); e2.parent = e2; E(id=1, parent=e2)       # both are children of e2
+        with db_session:
+            e1 = E[1]                       # e2 is known through e1's foreign key only
+            e2 = e1.parent
+            unloaded = E.parent not in e2._vals_
+            e2.parent = e1                  # the old parent (e2 itself) is unknown: its collection is not told
+            e1.parent = e1
+            got = {'count': e2.kids.count(), 'len': len(e2.kids)}
+            rollback()
+        ctx.case({'witness': 'count-blind-write', 'row-was-unloaded': unloaded}, kind='witness')
+        if got != {'count': 0, 'len': 0}:
+            ctx.count('witness-reproduced:count-without-flush')
+            ctx.violation('count() of a collection misses an unflushed change the collection does not know of (the reference of an item whose row is not loaded was reassigned)',
+                          {'entities': "E.kids=Set(E); E.parent=Optional(E)", 'database': 'E[1].parent = E[2], E[2].parent = E[2]',
+                           'calls': ['e1 = E[1]', 'e2 = e1.parent', 'e2.parent = e1', 'e1.parent = e1', 'e2.kids.count()']},
+                          observed=got, expected={'count': 0, 'len': 0}, key='coll-count:unflushed-change-unknown-to-the-collection')
+        else: ctx.count('witness-not-reproduced:count-without-flush')
+    finally:
+        db.disconnect()
+
+
 def regressions(ctx):
+    witness_count_blind_write(ctx)
     witness_delete_unloaded(ctx)
     witness_unflushed_parameter(ctx)
     for name, hist in WITNESSES + REGRESSIONS:
